@@ -4,6 +4,7 @@ import (
 	"github.com/nspcc-dev/dbft/verifh/ev"
 	"github.com/nspcc-dev/dbft/verifh/mon"
 	"github.com/nspcc-dev/dbft/verifh/vnet"
+	"math/rand"
 )
 
 // C01: agreement. C02: decision certificate. Both are decided over the same
@@ -27,6 +28,25 @@ func runSafety(r *ev.Run, which string) {
 				Account(r, b, cert.Cnt)
 			}
 			SampleRun(r, b, "directed scenario "+b.Spec.Profile)
+		}
+	}
+	if Only < 0 {
+		// seeded variations of the equivocating-primary attack (arrival orders, missing transactions, anti-MEV, N)
+		rng := rand.New(rand.NewSource(r.Seed + 77))
+		for i := 0; i < r.Pick(600, 20000); i++ {
+			cert := mon.NewCert()
+			agree := &mon.Agree{Cert: cert}
+			b := SplitPrimary(rng, cert, agree)
+			if which == "C01" {
+				Report(r, b, agree.Viols)
+				Account(r, b, agree.Cnt)
+			} else {
+				Report(r, b, cert.Viols)
+				Account(r, b, cert.Cnt)
+			}
+			if decisions(b.C) > 0 {
+				r.Distinct(mon.AbstractTrace(b.C))
+			}
 		}
 	}
 	plan := []Plan{{"byz", 1500, 60000}, {"async-benign", 700, 30000}, {"missing-tx", 300, 10000}, {"sync-perm", 200, 5000}}
